@@ -299,10 +299,17 @@ CLAIMS["C19"] = (
     "pin the connection they took or close and return it exactly once and hand nothing to the caller (fixed in /repo: it was handed back "
     "and returned twice); commit, rollback (fixed: closed connections were skipped), handleKsQuit, clearKsConns and the failed-ping path "
     "(fixed: connections stayed pinned after being returned) return every connection they drop exactly once (loop invariants over the map "
-    "ranges with visited sets and iteration counts); recycleBackendConns returns each per-statement connection once outside transactions. "
-    "Recorded finding: recycleTx drops the transaction table without returning the other slices' connections.",
-    "Assumed: pool contracts (see C18); distinct slices hand out distinct connections is PROVED from the ledger, not assumed. NOT under "
-    "contract: recycleBackendConn / recycleContinueConn (streaming state), ExecuteSQL / ExecuteSQLs / executeUnshardSQLInSlice (timeouts, "
+    "ranges with visited sets and iteration counts); recycleBackendConns returns each per-statement connection once outside transactions; "
+    "recycleBackendConn / recycleContinueConn (the per-statement exit): a connection taken for the statement only is returned exactly once "
+    "(or kept as the streaming connection), a pinned open one stays pinned with the ledger intact, a closed keep-session connection is "
+    "unpinned before it is returned (fixed in /repo, 58987ab: it stayed pinned and was returned again at client exit; unpinKsConn under "
+    "contract). Recorded findings: recycleTx drops the transaction table without returning the other slices' connections, and the same "
+    "defect seen from recycleBackendConn / recycleContinueConn (residual obligation: single-slice transactions, proved). A callee "
+    "postcondition with a recorded finding is not assumed at its call sites (only under its residual condition).",
+    "Assumed: pool contracts (see C18); how the statement's connection is held is a specification parameter (ghost pinKind / pinKey) tied "
+    "to the tables by preconditions; keep-session sessions do not use the transaction table (getBackendConn dispatch); distinct slices "
+    "hand out distinct connections is PROVED from the ledger, not assumed. NOT under "
+    "contract: ExecuteSQL / ExecuteSQLs / executeUnshardSQLInSlice (timeouts, "
     "goroutines), Session.Close, the pool's own Put accounting (pooledConnectImpl.Recycle); the history quantifier is induction over "
     "operations preserving the ledger (meta-argument).",
     "DESIGN.md section 4, C19")
